@@ -10,8 +10,11 @@ if ! git -C /repo apply --3way /verif/seeded/$name/patch.diff 2>/tmp/apply.err; 
   if ! git -C /repo apply /verif/seeded/$name/patch.diff; then echo "PATCH DOES NOT APPLY"; cat /tmp/apply.err; git -C /repo reset -q --hard HEAD; exit 3; fi
 fi
 git -C /repo reset -q
+# the evidence file in /verif must keep describing the unchanged tree
+cp evidence/$prop.json /tmp/try_seed.evidence.$prop.$$ 2>/dev/null
 ./check $prop $tier > /tmp/try_seed.$name.$prop.out 2>&1
 rc=$?
+if [ -f /tmp/try_seed.evidence.$prop.$$ ]; then mv /tmp/try_seed.evidence.$prop.$$ evidence/$prop.json; fi
 git -C /repo reset -q --hard HEAD ; git -C /repo clean -fdq
 echo "seed=$name property=$prop tier=$tier exit=$rc"
 grep -E "^(violation|VIOLATION|INCONCLUSIVE|PASS|C[0-9]+ )" /tmp/try_seed.$name.$prop.out | head -6 | cut -c1-300
